@@ -70,6 +70,24 @@ def renderDay (d : DayTimes) : String :=
 def renderRange (days : List (Int × DayTimes)) : String :=
   "{" ++ ",".intercalate (days.map fun (rd, d) => "\"" ++ isoDate rd ++ "\":" ++ renderDay d) ++ "}"
 
+/-- the same document in canonical form (compact, object keys in byte order - what re-serialising the
+    decoded JSON value gives): equal canonical forms = the two files decode to the same value.  Used
+    by the correspondence when the bytes differ (a pretty-printed or re-ordered file still "decodes
+    to exactly the library's result") -/
+def renderPTCanon : Option PT → String
+  | some t => "{\"Ok\":{\"extreme\":" ++ (if t.extreme then "true" else "false") ++ ",\"time\":\"" ++
+      pad2 t.time.h ++ ":" ++ pad2 t.time.m ++ ":" ++ pad2 t.time.s ++ "\"}}"
+  | none => "{\"Err\":null}"
+
+def renderDayCanon (d : DayTimes) : String :=
+  "{\"Asr\":" ++ renderPTCanon d.asr ++ ",\"Dhuhr\":" ++ renderPTCanon d.dhuhr ++ ",\"Fajr\":" ++ renderPTCanon d.fajr ++
+  ",\"Imsaak\":" ++ renderPTCanon d.imsaak ++ ",\"Isha\":" ++ renderPTCanon d.isha ++ ",\"Maghrib\":" ++ renderPTCanon d.magh ++
+  ",\"Shurooq\":" ++ renderPTCanon d.shur ++ "}"
+
+/-- dates ascending = keys in byte order for the years 0000..9999 the date rendering covers -/
+def renderRangeCanon (days : List (Int × DayTimes)) : String :=
+  "{" ++ ",".intercalate (days.map fun (rd, d) => "\"" ++ isoDate rd ++ "\":" ++ renderDayCanon d) ++ "}"
+
 /-- 64-bit FNV-1a of the UTF-8 bytes (to compare large outputs through the line protocol) -/
 def fnv1a (s : String) : UInt64 :=
   s.toUTF8.foldl (fun h b => (h ^^^ b.toUInt64) * 0x100000001b3) 0xcbf29ce484222325
